@@ -1,7 +1,7 @@
 (* Run.v — running the interpreter model on a case and comparing the observables with what the
    implementation produced (used only by the generated case files).  No proofs here. *)
 From Coq Require Import SpecFloat.
-From BS Require Import Model.Base Model.Num Model.Arith Model.ExprParser Model.Script Model.Interp Model.LibCore Model.LibAll Gen.Library.
+From BS Require Import Model.Base Model.Num Model.Arith Model.ExprParser Model.Script Model.Interp Model.LibCore Model.LibAll Model.LibPartial Gen.Library.
 Local Open Scope Z_scope.
 
 (* values as trees: what an observer sees (object keys sorted; functions and regexes opaque) *)
@@ -89,7 +89,7 @@ Definition no_lint (sc : script) : list str := [].
 Definition no_url (b u : str) : str := u.
 
 Definition run_script (cfg : config) (fuel : nat) (sc : script) (w : world) : outcome * world :=
-  execute_script cfg (libfull cfg) no_url no_lint fuel sc w.
+  execute_script cfg (libfull2 cfg) no_url no_lint fuel sc w.
 
 (* 1 = the model agrees with the implementation on result, log, visible globals and statement count;
    0 = it differs; 2 = the model declined (oracle payload) ; 3 = out of fuel *)
@@ -119,7 +119,7 @@ Definition check_run (cfg : config) (fuel : nat) (sc : script) (w : world)
 (* evaluate_expression(expr, options, locals, builtins) on an initial world *)
 Definition check_eval (cfg : config) (fuel : nat) (e : expr) (loc : option env) (bi : bool) (w : world)
            (x : expected) (xlog : list str) : N :=
-  match eval cfg (libfull cfg) no_url no_lint fuel e loc bi UHost w with
+  match eval cfg (libfull2 cfg) no_url no_lint fuel e loc bi UHost w with
   | (OOracle, _) => 2%N
   | (OFuel, _) => 3%N
   | (o, w1) =>
